@@ -222,6 +222,7 @@ PropFailures(S, e, T, out, rec) ==
   \cup F("C01", "ReplicasAgree", rec.det = "")
   \cup F("C03", "SaveLoadInvisible", rec.snap = "")
   \cup F("C15", "OneLine", rec.lines = "")
+  \cup F("C14", "PublicViewMatchesState", rec.view = "")
   \cup F("C17", "LookupSound",
          \A k \in DOMAIN rec.lookup :
             LET id == rec.lookup[k][1]  ans == rec.lookup[k][2] IN
